@@ -100,7 +100,7 @@ Definition parse_volume (id idx lba_start num_blocks : N) : M vol :=
     let fc := le32 ib 488 in
     let nx := le32 ib 492 in
     ret (set_v_next_free (set_v_free v (if fc =? 4294967295 then None else Some fc))
-           (if (nx =? 4294967295) || (nx =? 0) || (nx =? 1) then None else Some nx))
+           (if (nx =? 4294967295) || (nx =? 0) || (nx =? 1) || (cc + 2 <=? nx) then None else Some nx))
   else
     if negb (le16 b 11 =? 512) then fail BadBlockSize else
     let root_dir_blocks := (le16 b 17 * 32 + 511) / 512 in
